@@ -22,6 +22,8 @@
          | 9                     virtual time advances by network.DialPeerTimeout: every wait / dial times out
          | 10 lim proxy          like 1, but the connection already reports IsClosed() when it is added
          | 11 c allow            Conn.NewStream called directly on connection c (a new call)
+         | 12 allow force nodial BasicHost.Connect(ctx, {ID: p}) on a real BasicHost over the swarm (a new call,
+                                 opts = 1 + 16 + option bits; st 6 = returned nil)
      OBS = nw key cn  m (flags)^m  n (st arg opts)^n  k (a f)^k
          nw  = len(directConnNotifs.m[p]); key = 1 iff the map has the key
          cn  = Connectedness(p): 0 NotConnected, 1 Connected, 2 Limited
@@ -49,7 +51,8 @@ Inductive op :=
 | ODialRes (a : addr) (ok lim : bool)
 | OExpire
 | OAddClosed (lim proxy : bool)
-| OStartOn (c : nat) (allow : bool).
+| OStartOn (c : nat) (allow : bool)
+| OConnect (allow force nodial : bool).
 
 (* run the lowest-numbered runnable call for one step *)
 Fixpoint first_enabled (s : state) (tid n : nat) : option state :=
@@ -108,6 +111,7 @@ Definition stimulate (s : state) (o : op) : state :=
   | OAddClosed lim proxy =>
       do_step (do_step (do_step s (AAppend lim proxy)) (AMark (length (conns s)))) (ANotify (length (conns s)))
   | OStartOn c allow => do_step s (AStartOn c allow)
+  | OConnect a f n => do_step s (AStartConn a f n)
   end.
 
 Definition apply_op (s : state) (o : op) : state :=
@@ -135,7 +139,7 @@ Definition status (s : state) (t : thread) : nat * nat :=
   | PWaiting w => if mem w (closedw s) || t_ctx t then (0, 5) else (1, 0)
   | POpening c => (2, c)
   | PDialWait _ => if t_ctx t then (0, 8) else (3, 0)
-  | PDone (ROk c) => (4, c)
+  | PDone (ROk c) => if t_dial t && t_onconn t then (6, 0) else (4, c)   (* Connect returns no conn *)
   | PDone (RErr e) => (5, e)
   | p => (0, rank p)
   end.
@@ -284,6 +288,29 @@ Definition keeps_waiting_ok (p : obs) (o : op) (x : obs) : bool :=
   | _ => all2_except (length (o_calls p)) 0 (o_calls p) (o_calls x)
   end.
 
+(* clause 9, "otherwise the call waits": a Swarm.NewStream call is answered
+   ErrLimitedConn (error 2) only in a step in which a non-limited connection was
+   added (it was woken and found the connection gone again) — never at once,
+   and never after a dial of its own that produced a limited connection *)
+Definition lim_err (c : call_obs) : bool :=
+  negb (co_dial c) && negb (co_onconn c) && Nat.eqb (co_st c) 5 && Nat.eqb (co_arg c) 2.
+
+Fixpoint lim_errs_old (prev now : list call_obs) : bool :=
+  match now with
+  | [] => true
+  | n :: nr =>
+      (negb (lim_err n) || match prev with q :: _ => lim_err q | [] => false end)
+      && lim_errs_old (tl prev) nr
+  end.
+
+Definition limited_err_ok (p x : obs) : bool := direct_added p x || lim_errs_old (o_calls p) (o_calls x).
+
+(* clause 10: a BasicHost.Connect demanding a direct connection reports success
+   only if a connection over a non-proxy transport to the peer exists *)
+Definition connect_ok (cs : list conn_obs) (c : call_obs) : bool :=
+  negb (co_dial c && co_onconn c && co_force c && Nat.eqb (co_st c) 6)
+  || existsb (fun k => negb (k_proxy k)) cs.
+
 (* 0 = fine, otherwise the number of the violated clause *)
 Definition mon_check (p : obs) (o : op) (x : obs) : nat :=
   if negb (forallb (result_ok (o_conns x)) (o_calls x)) then 1
@@ -294,6 +321,8 @@ Definition mon_check (p : obs) (o : op) (x : obs) : nat :=
   else if negb (dials_ok (o_dials x)) then 6
   else if negb (must_wait_ok p o x) then 7
   else if negb (keeps_waiting_ok p o x) then 8
+  else if negb (limited_err_ok p x) then 9
+  else if negb (forallb (connect_ok (o_conns x)) (o_calls x)) then 10
   else 0.
 
 Definition obs_init : obs := mkObs 0 false 0 [] [] [].
@@ -395,6 +424,7 @@ Definition decode_op (l : list Z) : option (op * list Z) :=
   | 9 :: r => Some (OExpire, r)
   | 10 :: lim :: proxy :: r => Some (OAddClosed (zbool lim) (zbool proxy), r)
   | 11 :: c :: a :: r => Some (OStartOn (zn c) (zbool a), r)
+  | 12 :: a :: f :: n :: r => Some (OConnect (zbool a) (zbool f) (zbool n), r)
   | _ => None
   end.
 
